@@ -160,6 +160,8 @@ def check_whitelist(ctx):
 def asserted_dependencies(ix):
   """X -> {Y}: StyleProcessors.X.compute asserts on a value read from StyleProperties.Y."""
   deps = {}
+  DEREF_DEPS.clear()
+  DEREF_DEPS_OWN_ABSENT.clear()
   sp = ix.cls("ttconv.isd:StyleProcessors")
   for name, c in sp.nested.items():
     comp = c.methods.get("compute")
@@ -181,7 +183,31 @@ def asserted_dependencies(ix):
         for nm in ast.walk(st.test):
           if isinstance(nm, ast.Name) and nm.id in var_prop and var_prop[nm.id] != name:
             deps.setdefault(name, set()).add(var_prop[nm.id])
+    # a value of another property that is dereferenced where no `is None` test of it reaches: that property must be set
+    from ..rules import match as _m
+    for nm in own_nodes(comp.node):
+      if isinstance(nm, ast.Attribute) and isinstance(nm.value, ast.Name) and nm.value.id in var_prop and var_prop[nm.value.id] != name and isinstance(nm.ctx, ast.Load):
+        v = nm.value.id
+        guarded = False
+        for test, pol in _m.reaching_conditions(nm, comp.node):
+          t_ = unparse(test).replace(" ", "")
+          if (pol and t_ in (f"{v}isnotNone", v)) or (not pol and t_ in (f"{v}isNone", f"not{v}")):
+            guarded = True
+        # (a dereference that is only reached when the processor's own property is absent does not concern callers that
+        #  call compute() only for elements that have the property)
+        own_absent = False
+        for test, pol in _m.reaching_conditions(nm, comp.node):
+          t_ = unparse(test).replace(" ", "")
+          for ov, op_ in var_prop.items():
+            if op_ == name and ((pol and t_ in (f"{ov}isNone", f"not{ov}")) or (not pol and t_ in (f"{ov}isnotNone", ov))):
+              own_absent = True
+        if not guarded:
+          (DEREF_DEPS_OWN_ABSENT if own_absent else DEREF_DEPS).setdefault(name, set()).add(var_prop[v])
   return deps
+
+
+DEREF_DEPS: dict = {}
+DEREF_DEPS_OWN_ABSENT: dict = {}
 
 
 def check_compute_order(ctx, funcs):
@@ -221,6 +247,27 @@ def check_compute_order(ctx, funcs):
       if x not in deps:
         n += 1
         ctx.ok("ORD-compute", f"{f.qualname}|{x}.compute({elem})", ctx.where(f.module, c), "no asserted dependency")
+      # properties whose value x.compute dereferences unguarded must be present on the element here: computed before on every
+      # path, or tested `is not None` by a condition that reaches the call
+      from ..rules import match as _m
+      own_present = False
+      for test, pol in _m.reaching_conditions(c, f.node):
+        t_ = unparse(test).replace(" ", "").replace("(", "").replace(")", "").replace("styles.", "")
+        if f"{elem}.get_styleStyleProperties.{x}" in t_ and ((pol and "isnotNone" in t_) or (not pol and "isNone" in t_)):
+          own_present = True
+      need = set(DEREF_DEPS.get(x, set())) | (set() if own_present else set(DEREF_DEPS_OWN_ABSENT.get(x, set())))
+      for y in sorted(need - deps.get(x, set())):
+        n += 1
+        ok = any(unparse(c2.func.value).split(".")[-1] == y and unparse(c2.args[1]) == elem and cfg.stmt_node_containing(c2) in dom.get(nid, ()) and cfg.stmt_node_containing(c2) != nid for c2 in calls)
+        for test, pol in _m.reaching_conditions(c, f.node):
+          t_ = unparse(test).replace(" ", "").replace("(", "").replace(")", "")
+          want = f"{elem}.get_styleStyleProperties.{y}".replace("(", "").replace(")", "")
+          if want in t_.replace("styles.", "") and ((pol and "isnotNone" in t_) or (not pol and "isNone" in t_)):
+            ok = True
+        ctx.check(ok, "ORD-compute", f"{f.qualname}|{x}.compute({elem}) reads {y}", ctx.where(f.module, c),
+                  f"{y} is present on {elem} where {x}.compute is called",
+                  f"{x}.compute dereferences the element's {y} without testing it for None, but here neither a {y}.compute(…, {elem}) on every path nor a reaching `get_style({y}) is not None` test "
+                  f"guarantees that {elem} has a {y}: AttributeError on elements that specify tts:{x[0].lower() + x[1:]} but no tts:{y[0].lower() + y[1:]}")
   return n
 
 
